@@ -293,6 +293,11 @@ int main(int argc, char *argv[])
         {
           r->name_atoms();
           r->armed = true;
+          {
+            // what any client of an executor build does with a solution: serialise it (items without a name included)
+            std::ostringstream discard;
+            discard << *s;
+          }
           log << "solved;";
           r->plan();
           for (const auto &st : r->steps)
